@@ -340,23 +340,41 @@ AnsStatus(n) ==
   /\ b' = [b EXCEPT !.query = @ + 1]
   /\ UNCHANGED d
 
-\* partReceived for a part lo..hi of version v of n
+\* partReceived for a part lo..hi of version v of n, given the (built) cache c
+RcvRes(c, n, v, lo, hi) ==
+  LET e == c[n]
+      k == d.cmp[n]
+  IN IF e.st = "unknown"
+     THEN k # NoCmp /\ k.ren = Ren[n] /\ k.v = v /\ k.prev = Prev[n] /\ (lo..hi) \subseteq k.have
+     ELSE e.st # "failed" /\ e.v = v /\ e.ren = Ren[n]
+RcvUnlock(c, n, res) ==
+  IF c[n].st = "unknown" THEN d.cmp[n] = NoCmp ELSE res /\ c[n].st \in {"finalized", "logged"}
 AnsReceived(n, v, lo, hi) ==
   /\ m.ready /\ m.rec = "" /\ b.query < MaxQuery /\ Free(n)
   /\ LET c == CacheB
-         e == c[n]
-         k == d.cmp[n]
-         res == IF e.st = "unknown"
-                THEN k # NoCmp /\ k.ren = Ren[n] /\ k.v = v /\ k.prev = Prev[n] /\ (lo..hi) \subseteq k.have
-                ELSE e.st # "failed" /\ e.v = v /\ e.ren = Ren[n]
-         unlock == IF e.st = "unknown" THEN k = NoCmp
-                   ELSE res /\ e.st \in {"finalized", "logged"}
+         res == RcvRes(c, n, v, lo, hi)
      IN /\ m' = [m EXCEPT !.cache = c, !.built = TRUE,
-                          !.plock[n] = IF unlock THEN FALSE ELSE TRUE]
+                          !.plock[n] = IF RcvUnlock(c, n, res) THEN FALSE ELSE TRUE]
         /\ h' = [h EXCEPT !.ans = [kind |-> "received", n |-> n, v |-> v,
                                    res |-> IF res THEN "yes" ELSE "no"]]
   /\ b' = [b EXCEPT !.query = @ + 1]
   /\ UNCHANGED d
+
+\* Stage.Received for a list of two parts ("how many of these did you get"): the
+\* number of LEADING parts on record; the second part is looked at only if the first is
+AnsReceived2(r1, r2) ==
+  /\ m.ready /\ m.rec = "" /\ b.query < MaxQuery /\ Free(r1.n) /\ Free(r2.n)
+  /\ LET c == CacheB
+         res1 == RcvRes(c, r1.n, r1.v, r1.lo, r1.hi)
+         res2 == RcvRes(c, r2.n, r2.v, r2.lo, r2.hi)
+         cnt == IF ~res1 THEN 0 ELSE IF ~res2 THEN 1 ELSE 2
+         pl1 == [m.plock EXCEPT ![r1.n] = IF RcvUnlock(c, r1.n, res1) THEN FALSE ELSE TRUE]
+         pl2 == IF res1 THEN [pl1 EXCEPT ![r2.n] = IF RcvUnlock(c, r2.n, res2) THEN FALSE ELSE TRUE] ELSE pl1
+     IN /\ m' = [m EXCEPT !.cache = c, !.built = TRUE, !.plock = pl2]
+        \* (the count itself is judged on the observed answer, Obs_C09_ReceivedN; no design formula reads it)
+        /\ cnt \in 0..2
+  /\ b' = [b EXCEPT !.query = @ + 1]
+  /\ UNCHANGED <<d, h>>
 
 -----------------------------------------------------------------------------
 (* Cleaning: cleanStrays for one old .part, cleanWaiting                     *)
@@ -498,6 +516,7 @@ Next ==
   \/ ValWait \/ ValMark \/ PutLog \/ PutMoveLck \/ PutMoveFinal \/ PutMark \/ PutRmCmp
   \/ \E n \in Names : AnsStatus(n)
   \/ \E r \in Requests : r.dv = r.v /\ AnsReceived(r.n, r.v, r.lo, r.hi)
+  \/ \E r1, r2 \in Requests : r1.dv = r1.v /\ r2.dv = r2.v /\ r1 # r2 /\ AnsReceived2(r1, r2)
   \/ \E n \in Names : AgePart(n) \/ CleanStray(n) \/ CleanLoop(n)
   \/ ExpireCache
   \/ \E n \in Names, k \in Blocks : Overwrite(n, k)
